@@ -13,8 +13,8 @@ generator. Core-only.
 * `NonTailStep e m` — `m` is an immediate sub-expression of `e` that the generator compiles
                        as part of the same function body but whose value `e` still needs:
                        a `cond` test, a non-last statement, an initialiser, a non-last
-                       `and`/`or` arm, an array element, the right-hand side of `def`/`set`,
-                       either side of an assignment. (Operands of an ordinary call are not in
+                       `and`/`or` arm, an array element, the right-hand side of `def`/`set`
+                       and of an assignment to a place. (Operands of an ordinary call are not in
                        this list: they are compiled at run time by a fresh generator, see
                        `VM.evalCallExpr`. The parts of a `for` are not in it either: the
                        generator clears the flag for all four, `Model/Gen.lean` `.for_`.)
@@ -52,7 +52,6 @@ inductive NonTailStep : Expr → Expr → Prop
   | arrElem {es : List Expr} {e : Expr} : e ∈ es → NonTailStep (.arr es) e
   | defRhs {x : String} {e : Expr} : NonTailStep (.def_ x e) e
   | setRhs {x : String} {e : Expr} : NonTailStep (.set_ x e) e
-  | assignLhs {l r : Expr} : NonTailStep (.assign l r) l
   | assignRhs {l r : Expr} : NonTailStep (.assign l r) r
 
 /-- Reached through steps of either kind (the sub-expressions compiled into the same body). -/
